@@ -9,7 +9,9 @@ import (
 	"io"
 	"math/rand/v2"
 	"net"
+	"runtime"
 	"sync"
+	"sync/atomic"
 	"testing"
 	"testing/synctest"
 	"time"
@@ -169,6 +171,8 @@ func filterFor(kind int) func([]byte) bool {
 		return func(b []byte) bool { return len(b) > 0 && b[0]%2 == 1 }
 	case 2:
 		return func([]byte) bool { return false }
+	case 3:
+		return func(b []byte) bool { return len(b) == 0 || b[0]%2 == 1 }
 	}
 	return nil
 }
@@ -179,8 +183,82 @@ type runner struct {
 	fake   *fakeConn
 	l      net.Listener
 	conns  []net.Conn // accepted, by id
+	rem    []int      // remote of each accepted connection, as RemoteAddr said when it was accepted
 	closed []bool
 	lcl    bool
+	// loopback tier (mode 3): a real socket on 127.0.0.1 and one real socket per remote
+	uc     *net.UDPConn
+	rs     []*net.UDPConn
+	syncUp bool
+	picked atomic.Int64 // datagrams the read loop has begun to dispatch (counted at the lock of getConn)
+	broken bool         // a wait of the loopback tier timed out: the rest of the history is not run
+}
+
+var brokenHistories int // loopback tier: histories in which a wait timed out (generation stops after three)
+
+const (
+	loopMode   = 3
+	syncRemote = 6 // loopback tier: the remote whose connection (id 0) carries the markers
+)
+
+func (r *runner) remoteOf(a net.Addr) int {
+	if r.mode != loopMode {
+		return remoteIndex(r.mode, a)
+	}
+	for i, c := range r.rs {
+		if a != nil && c.LocalAddr().String() == a.String() {
+			return i
+		}
+	}
+	return 99
+}
+
+// until polls (real time) for a condition of the loopback tier
+func until(cond func() bool) bool {
+	for i := 0; i < 5000; i++ {
+		if cond() {
+			return true
+		}
+		time.Sleep(time.Millisecond)
+	}
+	return false
+}
+
+func newLoopRunner(backlog, fk, batch int) *runner {
+	r := &runner{mode: loopMode, batch: batch}
+	udp.VListenUDPHook = func(network string, laddr *net.UDPAddr) (udp.VerifPacketConn, error) {
+		c, err := net.ListenUDP(network, laddr)
+		if err != nil {
+			return nil, err
+		}
+		r.uc = c
+		return c, nil
+	}
+	// the instrumented copy of conn.go reports its lock operations: used here only to count dispatches
+	udp.VYieldHook = func(label string) {
+		if label == "getConn#0" {
+			r.picked.Add(1)
+		}
+	}
+	udp.VBlockedHook = func(string) { runtime.Gosched() }
+	udp.VLockedHook = func(string) {}
+	lc := udp.ListenConfig{Backlog: backlog, AcceptFilter: filterFor(fk)}
+	if batch > 0 {
+		lc.Batch = udp.BatchIOConfig{Enable: true, ReadBatchSize: batch, WriteBatchSize: 2, WriteBatchInterval: time.Millisecond}
+	}
+	l, err := lc.Listen("udp4", &net.UDPAddr{IP: net.IPv4(127, 0, 0, 1), Port: 0})
+	if err != nil {
+		panic(err)
+	}
+	r.l = l
+	for i := 0; i <= syncRemote; i++ {
+		c, err := net.ListenUDP("udp4", &net.UDPAddr{IP: net.IPv4(127, 0, 0, 1), Port: 0})
+		if err != nil {
+			panic(err)
+		}
+		r.rs = append(r.rs, c)
+	}
+	return r
 }
 
 func newRunner(backlog, fk, mode, batch int) *runner {
@@ -213,20 +291,70 @@ func (r *runner) flush() {
 	synctest.Wait()
 }
 
-func (r *runner) sock() string { return common.B(r.fake.isClosed()) }
+func (r *runner) sockClosed() bool {
+	if r.mode == loopMode {
+		return r.uc.SetWriteBuffer(1<<16) != nil // fails exactly when the socket has been closed
+	}
+	return r.fake.isClosed()
+}
+
+func (r *runner) sock() string { return common.B(r.sockClosed()) }
+
+// allClosed: the harness has closed the listener and every connection it accepted
+func (r *runner) allClosed() bool {
+	for _, c := range r.closed {
+		if !c {
+			return false
+		}
+	}
+	return r.lcl
+}
 
 func (r *runner) exec(op []string) []string {
-	if op[0] != "1" {
+	if r.broken {
+		return []string{"7"}
+	}
+	out := r.exec1(op)
+	if r.mode == loopMode && (out[0] == "7" || (out[0] == "9" && op[0] == "3" && op[1] == "0")) {
+		r.broken = true
+		brokenHistories++
+	}
+	return out
+}
+
+func (r *runner) exec1(op []string) []string {
+	if op[0] != "1" && r.mode != loopMode {
 		r.flush()
 	}
 	switch op[0] {
 	case "1":
-		if r.fake.isClosed() {
+		if r.sockClosed() {
 			return []string{"1"}
 		}
 		p := make([]byte, len(op)-2)
 		for i, s := range op[2:] {
 			p[i] = byte(common.AtoI(s))
+		}
+		if r.mode == loopMode {
+			// a real datagram over the loopback interface: wait until the read loop has picked it up. The history itself
+			// contains, after every arrival, a marker from the sync remote and a blocking read of it on connection 0: the read
+			// loop handles datagrams one after the other, so once the marker has been read the earlier datagram has been
+			// dispatched completely
+			rem := common.AtoI(op[1])
+			before := r.picked.Load()
+			if _, err := r.rs[rem].WriteToUDP(p, r.l.Addr().(*net.UDPAddr)); err != nil {
+				panic(err)
+			}
+			if !until(func() bool { return r.picked.Load() > before }) {
+				return []string{"7"} // the datagram never reached the read loop
+			}
+			if rem == syncRemote && !r.syncUp {
+				r.syncUp = true
+				if !until(func() bool { return udp.VerifQueued(r.l) >= 1 }) {
+					return []string{"7"}
+				}
+			}
+			return []string{r.sock()}
 		}
 		if r.batch > 0 {
 			// batch mode: arrivals pile up on the socket until the next other operation, then the read loop
@@ -240,18 +368,19 @@ func (r *runner) exec(op []string) []string {
 		synctest.Wait()
 		return []string{r.sock()}
 	case "2":
-		if udp.VerifQueued(r.l) == 0 && !r.lcl && !r.fake.isClosed() {
+		if udp.VerifQueued(r.l) == 0 && !r.lcl && !r.sockClosed() {
 			return []string{"3", r.sock()} // would block: not issued
 		}
 		c, err := r.l.Accept()
-		synctest.Wait()
+		r.wait()
 		if err != nil {
 			return []string{"2", r.sock()}
 		}
 		id := len(r.conns)
 		r.conns = append(r.conns, c)
 		r.closed = append(r.closed, false)
-		rem := remoteIndex(r.mode, c.RemoteAddr())
+		rem := r.remoteOf(c.RemoteAddr())
+		r.rem = append(r.rem, rem)
 		return []string{"0", common.I(id), common.I(rem), r.sock()}
 	case "3":
 		id, k := common.AtoI(op[1]), common.AtoI(op[2])
@@ -259,7 +388,12 @@ func (r *runner) exec(op []string) []string {
 			return []string{"3", "0", r.sock()}
 		}
 		c := r.conns[id]
-		if udp.VerifBuffered(c) == 0 && !r.closed[id] {
+		if r.remoteOf(c.RemoteAddr()) != r.rem[id] {
+			return []string{"8", r.sock()} // the connection's remote address changed under it
+		}
+		if r.mode == loopMode && id == 0 && !r.closed[id] {
+			_ = c.SetReadDeadline(time.Now().Add(5 * time.Second)) // the marker is on its way: wait for it
+		} else if udp.VerifBuffered(c) == 0 && !r.closed[id] {
 			return []string{"3", "0", r.sock()}
 		}
 		buf := make([]byte, k)
@@ -282,20 +416,48 @@ func (r *runner) exec(op []string) []string {
 	case "4":
 		id := common.AtoI(op[1])
 		if id < len(r.conns) {
+			if r.remoteOf(r.conns[id].RemoteAddr()) != r.rem[id] {
+				return []string{"8", r.sock()}
+			}
 			_ = r.conns[id].Close()
 			r.closed[id] = true
-			synctest.Wait()
+			r.wait()
 		}
 		return []string{r.sock()}
 	default:
 		_ = r.l.Close()
 		r.lcl = true
-		synctest.Wait()
+		r.wait()
 		return []string{r.sock()}
 	}
 }
 
+// wait lets the listener's goroutines settle after an operation: in a bubble synctest.Wait; on the loopback tier the socket is
+// closed by a goroutine once the last reference is gone, so when the harness has closed everything it waits for that
+func (r *runner) wait() {
+	if r.mode != loopMode {
+		synctest.Wait()
+		return
+	}
+	if r.allClosed() {
+		until(r.sockClosed)
+	}
+}
+
 func (r *runner) finish() {
+	if r.mode == loopMode {
+		_ = r.l.Close()
+		for _, c := range r.conns {
+			_ = c.Close()
+		}
+		until(r.sockClosed)
+		for _, c := range r.rs {
+			_ = c.Close()
+		}
+		udp.VListenUDPHook = nil
+		udp.VYieldHook, udp.VBlockedHook, udp.VLockedHook = nil, nil, nil
+		return
+	}
 	r.flush()
 	_ = r.l.Close()
 	for _, c := range r.conns {
@@ -314,7 +476,13 @@ func runHistory(h *common.History, rng *rand.Rand) {
 	if len(h.Conf) >= 4 {
 		mode, batch = common.AtoI(h.Conf[2]), common.AtoI(h.Conf[3])
 	}
-	r := newRunner(backlog, fk, mode, batch)
+	var r *runner
+	if mode == loopMode {
+		r = newLoopRunner(backlog, fk, batch)
+		r.fake = &fakeConn{}
+	} else {
+		r = newRunner(backlog, fk, mode, batch)
+	}
 	defer func() {
 		multi := false
 		for _, n := range r.fake.calls {
@@ -348,12 +516,30 @@ func runHistory(h *common.History, rng *rand.Rand) {
 		h.Ops = append(h.Ops, op)
 		h.Obs = append(h.Obs, r.exec(op))
 	}
+	nrem, first := 7, 0
+	marker := func() {}
+	if mode == loopMode {
+		// connection 0 belongs to the sync remote and stays open until the end
+		nrem, first = syncRemote, 1
+		do("1", common.I(syncRemote), "1")
+		do("2")
+		do("3", "0", "64")
+		marker = func() {
+			do("1", common.I(syncRemote), "1")
+			do("3", "0", "64")
+		}
+		h.Tags = append(h.Tags, "loopback_sockets")
+	}
 	for i := 0; i < n; i++ {
 		switch c := rng.IntN(100); {
 		case c < 45:
 			ctr++
-			op := []string{"1", common.I(rng.IntN(7)), common.I(ctr % 256)}
+			op := []string{"1", common.I(rng.IntN(nrem)), common.I(ctr % 256)}
 			m := rng.IntN(5)
+			if rng.IntN(8) == 0 {
+				op, m = op[:2], 0 // an empty datagram
+				h.Tags = append(h.Tags, "empty_datagram")
+			}
 			if big && rng.IntN(6) == 0 {
 				// datagrams at and just below the listener's receive MTU (8192 bytes), and an empty one now and then
 				m = []int{8191, 8190, 8191, 4000}[rng.IntN(4)]
@@ -363,19 +549,20 @@ func runHistory(h *common.History, rng *rand.Rand) {
 				op = append(op, common.I((ctr+j*7)%256))
 			}
 			do(op...)
+			marker()
 		case c < 63:
 			do("2")
 		case c < 83:
-			if len(r.conns) > 0 {
+			if len(r.conns) > first {
 				sizes := []int{64, 64, 64, 2, 0}
 				if big {
 					sizes = []int{9000, 9000, 64, 8192, 2}
 				}
-				do("3", common.I(rng.IntN(len(r.conns))), common.I(sizes[rng.IntN(5)]))
+				do("3", common.I(first+rng.IntN(len(r.conns)-first)), common.I(sizes[rng.IntN(5)]))
 			}
 		case c < 93:
-			if len(r.conns) > 0 {
-				do("4", common.I(rng.IntN(len(r.conns))))
+			if len(r.conns) > first {
+				do("4", common.I(first+rng.IntN(len(r.conns)-first)))
 				h.Tags = append(h.Tags, "conn_close")
 			}
 		case c < 96:
@@ -394,7 +581,7 @@ func runHistory(h *common.History, rng *rand.Rand) {
 			do("4", common.I(k))
 		}
 	}
-	if r.fake.isClosed() {
+	if r.sockClosed() {
 		h.Tags = append(h.Tags, "socket_closed_at_end")
 	}
 	r.finish()
@@ -415,7 +602,11 @@ func TestHarness(t *testing.T) {
 				w.Put(h)
 				continue
 			}
-			synctest.Test(t, func(*testing.T) { runHistory(h, nil) })
+			if len(h.Conf) >= 4 && h.Conf[2] == "3" {
+				runHistory(h, nil) // loopback tier: real sockets, real time
+			} else {
+				synctest.Test(t, func(*testing.T) { runHistory(h, nil) })
+			}
 			w.Put(h)
 		}
 	} else {
@@ -428,7 +619,17 @@ func TestHarness(t *testing.T) {
 				w.Put(h)
 				continue
 			}
-			h := &common.History{Conf: []string{common.I([]int{1, 2, 3, 128}[rng.IntN(4)]), common.I([]int{0, 0, 1, 2}[rng.IntN(4)]),
+			if a.Mode == "loop" {
+				if brokenHistories >= 3 {
+					break
+				}
+				h := &common.History{Conf: []string{common.I([]int{1, 2, 3, 128}[rng.IntN(4)]), common.I([]int{0, 0, 1, 3}[rng.IntN(4)]),
+					"3", common.I([]int{0, 0, 0, 2, 8}[rng.IntN(5)])}}
+				runHistory(h, rng)
+				w.Put(h)
+				continue
+			}
+			h := &common.History{Conf: []string{common.I([]int{1, 2, 3, 128}[rng.IntN(4)]), common.I([]int{0, 0, 1, 2, 3}[rng.IntN(5)]),
 				common.I(rng.IntN(3)), common.I([]int{0, 0, 2, 3, 8}[rng.IntN(5)])}}
 			synctest.Test(t, func(*testing.T) { runHistory(h, rng) })
 			w.Put(h)
